@@ -67,6 +67,7 @@ type Frame struct {
 	curIdx   int
 	curR     string
 	siteCnt  map[string]int
+	siteOrd  map[interface{}]int
 	freeVars []Val
 	params   []Val
 	safety   map[string]bool
